@@ -329,6 +329,12 @@ def _test_positions(fn: ast.AST):
     for n in ast.walk(fn):
         if isinstance(n, (ast.If, ast.While, ast.IfExp)):
             yield n.test
+        elif isinstance(n, ast.Call) and isinstance(n.func, ast.Name) and n.func.id in ("all", "any") and len(n.args) == 1 \
+                and isinstance(n.args[0], (ast.GeneratorExp, ast.ListComp)):
+            yield n.args[0].elt               # all(a == b for ...): every element is taken for its truth value
+        elif isinstance(n, ast.BoolOp):
+            for v in n.values[:-1]:
+                yield v                       # every operand of and/or but the last decides by its truth value
         elif isinstance(n, ast.Assert):
             yield n.test
         elif isinstance(n, ast.UnaryOp) and isinstance(n.op, ast.Not):
@@ -424,6 +430,74 @@ def _operand_truth(idx: Index, res: Result) -> int:
     return n_inst
 
 
+def _operand_truth_in_operators(idx: Index, res: Result) -> int:
+    """TRUTH inside operators.py itself: a method of an operator class (or a module-level helper it hands its operands to) that takes
+    `x == y` / `x != y` for its truth value where x or y is one of the operator's *operands* (self.element, self.element_1/2, a member of
+    self.args, or a local that such a value flows into - tuple unpacking, a helper that hands its parameter back, iteration over a
+    tuple / zip of such values).  An operand may be an Operator, whose == builds a ComparisonOperator: always true."""
+    m = idx.module(OPS)
+    OPERAND_ATTRS = {"element", "element_1", "element_2", "condition", "then_", "else_"}
+    # module-level helpers: which positions of the returned tuple are a parameter handed back
+    hands_back: Dict[str, Dict[int, int]] = {}
+    for q, fi in m.functions.items():
+        if fi.cls or "." in q:
+            continue
+        ps = params(fi.node)
+        pos: Dict[int, Set[int]] = {}
+        rets = [r for r in walk_no_nested(fi.node) if isinstance(r, ast.Return) and r.value is not None]
+        for r in rets:
+            elts = r.value.elts if isinstance(r.value, ast.Tuple) else [r.value]
+            for i, e in enumerate(elts):
+                if isinstance(e, ast.Name) and e.id in ps:
+                    pos.setdefault(i, set()).add(ps.index(e.id))
+        if pos:
+            hands_back[fi.node.name] = {i: next(iter(v)) for i, v in pos.items() if len(v) == 1}
+    n = 0
+    for q, fi in m.functions.items():
+        if not fi.cls or "Operator" not in {c.name for c in idx.mro(m.classes[fi.cls])} if fi.cls in m.classes else True:
+            continue
+        typed: Set[str] = set()
+
+        def is_operand(e) -> bool:
+            if isinstance(e, ast.Attribute) and isinstance(e.value, ast.Name) and e.value.id == "self" and e.attr in OPERAND_ATTRS:
+                return True
+            if isinstance(e, ast.Subscript) and dotted(e.value) == "self.args":
+                return True
+            return isinstance(e, ast.Name) and e.id in typed
+        for _ in range(4):
+            for a in ast.walk(fi.node):
+                if isinstance(a, ast.Assign) and len(a.targets) == 1:
+                    t, v = a.targets[0], a.value
+                    if isinstance(t, ast.Name) and is_operand(v):
+                        typed.add(t.id)
+                    if isinstance(t, ast.Tuple) and isinstance(v, ast.Call) and isinstance(v.func, ast.Name) and v.func.id in hands_back:
+                        for i, pi in hands_back[v.func.id].items():
+                            if i < len(t.elts) and isinstance(t.elts[i], ast.Name) and pi < len(v.args) and is_operand(v.args[pi]):
+                                typed.add(t.elts[i].id)
+                if isinstance(a, (ast.comprehension, ast.For)):
+                    it, tg = a.iter, a.target
+                    srcs = [it]
+                    if isinstance(it, ast.Call) and isinstance(it.func, ast.Name) and it.func.id == "zip":
+                        srcs = list(it.args)
+                    tgs = list(tg.elts) if isinstance(tg, ast.Tuple) and len(srcs) > 1 else [tg]
+                    for s_, t_ in zip(srcs, tgs):
+                        if isinstance(t_, ast.Name) and ((isinstance(s_, (ast.Tuple, ast.List)) and any(is_operand(x) for x in s_.elts)) or dotted(s_) == "self.args"):
+                            typed.add(t_.id)
+        bad = None
+        for t in _test_positions(fi.node):
+            for c in ast.walk(t):
+                if isinstance(c, ast.Compare) and len(c.ops) == 1 and isinstance(c.ops[0], (ast.Eq, ast.NotEq)):
+                    sides = [c.left, c.comparators[0]]
+                    if any(is_operand(x) for x in sides) and not any(isinstance(x, ast.Constant) for x in sides):
+                        bad = c
+        n += 1
+        if bad is not None:
+            res.find("TRUTH", "TRUTH/%s/operand-compared-for-truth" % fi.qual, fi.loc(bad), fi.qual, src(bad)[:90],
+                     "%s takes `%s` for its truth value; an operand may be an Operator, whose == / != build a ComparisonOperator object (always "
+                     "true) instead of comparing: the test says 'equal' for any two operators" % (fi.qual, src(bad)[:70]))
+    return n
+
+
 def check_c02(idx: Index, tier: str, res: Result) -> None:
     res.explanation = ("Hole-safety table over the DSL's generated-text templates: every return path of every term() method in "
                        "the property's vocabulary is extracted by abstract string evaluation; for every operand hole and every "
@@ -440,6 +514,7 @@ def check_c02(idx: Index, tier: str, res: Result) -> None:
     res.not_decided = ["that eval() of the text computes ordinary arithmetic (trusted: CPython)", "values near discontinuities",
                        "float re-association error of sums/products (a+(b-c) -> a+b-c is accepted: same real value)"]
     res.assumptions = ["CPython's parser", "real-number semantics for + - * /", "operator-precedence locality (induction step)"]
+    res.floor("operator methods scanned for operand comparisons taken as conditions", _operand_truth_in_operators(idx, res), 60)
     renderers, stats = dsl_renderers(idx, res)
     res.floor("term methods", stats["term_methods"], 72)
     res.floor("return paths", stats["return_paths"], 100)
@@ -776,6 +851,7 @@ def sweep_loop(idx: Index):
                 from ..util import value_alternatives
                 cnode = idx.modules[SDSIM].classes[sim.cls].node
                 alts = value_alternatives(cnode, sim.node, it)
+                alts = [x.args[0] if isinstance(x, ast.Call) and isinstance(x.func, ast.Name) and x.func.id in ("tuple", "list") and len(x.args) == 1 else x for x in alts]
                 texts = {src(x) for x in alts}
                 if alts and len(texts) == 1 and isinstance(alts[0], ast.Call) and call_name(alts[0]) == "timerange":
                     loops.append((n, alts[0]))
@@ -798,7 +874,18 @@ def sweep_loop(idx: Index):
 
 
 def _sweep(idx: Index, res: Result) -> None:
-    sim, lp, rng, v, stores = sweep_loop(idx)
+    from .. import util as _util
+    _util.KEYED_MEMO_DIAGNOSES.clear()
+    try:
+        sim, lp, rng, v, stores = sweep_loop(idx)
+    except AnalysisError:
+        # the grid is handed out by a memo whose key does not determine what is remembered: that is the defect, not an analysis gap
+        for fn_, read_, why in _util.KEYED_MEMO_DIAGNOSES[:1]:
+            sim_ = idx.func(SDSIM, "SdSimulation.__simulate")
+            res.find("SWEEP", "SWEEP/__simulate/grid-memo-key", "%s:%d" % (sim_.file, getattr(read_, "lineno", getattr(fn_, "lineno", 0))), getattr(fn_, "name", sim_.qual),
+                     src(read_)[:80], "the times the sweep visits come out of a memo: " + why + " - scenarios that differ only in that (a dt overridden "
+                     "in the run specs) are simulated on each other's grid")
+        raise
     args = rng.args
     ps = params(sim.node)
     res.check("SWEEP", "sweep starts at the requested start with the model's dt", len(args) >= 3 and src(args[0]) == "start"
@@ -981,6 +1068,42 @@ def _builtins(idx: Index, res: Result, renderers: List[Renderer]) -> None:
               "the trend equation is %s" % (src(teq[0]) if teq else "?"), key="BUILTIN/Trend/equation")
 
 
+def element_factories_rule(idx: Index, res: Result, rule: str) -> int:
+    """ONCE: Model.stock / flow / biflow / constant / converter hand back the element registered under a name and build one only when
+    there is none.  Building an element is not free of effects - Element.__init__ compiles the default equation into
+    model.equations[name] and empties its memo - so a construction that is *evaluated* for a registered name (the default argument of
+    dict.setdefault, `get(name) or Cls(...)` written the wrong way round, a construction hoisted above the test) silently replaces the
+    user's equation by the default one while the old object is handed back."""
+    from ..util import nesting_atoms
+    MODEL = "BPTK_Py/modeling/model.py"
+    ELEMENT_CLASSES = {"Stock", "Flow", "Biflow", "Constant", "Converter"}
+    ci = idx.cls(MODEL, "Model")
+    n = 0
+    for meth in ("stock", "flow", "biflow", "constant", "converter"):
+        defs = ci.methods.get(meth)
+        if not defs:
+            raise AnalysisError("anchor vanished: Model.%s" % meth)
+        fi = defs[-1]
+        ps = params(fi.node)
+        name_p = ps[1] if len(ps) > 1 else "name"
+        ctors = [c for c in iter_calls(fi.node) if (call_name(c) in ELEMENT_CLASSES and isinstance(c.func, ast.Name))
+                 or (isinstance(c.func, ast.Name) and c.func.id in ps and len(c.args) >= 2 and src(c.args[0]) == "self")]
+        if not ctors:
+            raise AnalysisError("Model.%s: construction of the element not found" % meth)
+        for c in ctors:
+            n += 1
+            fresh = any((isinstance(a, ast.Compare) and len(a.ops) == 1 and isinstance(a.left, ast.Name) and a.left.id == name_p
+                         and ((isinstance(a.ops[0], ast.In) and not t) or (isinstance(a.ops[0], ast.NotIn) and t)))
+                        or (isinstance(a, ast.Compare) and len(a.ops) == 1 and isinstance(a.ops[0], ast.Is) and t
+                            and isinstance(a.comparators[0], ast.Constant) and a.comparators[0].value is None)
+                        for a, t in nesting_atoms(fi.node, c))
+            res.check(rule, "Model.%s builds an element only for a name that is not registered" % meth, fresh, fi.loc(c), fi.qual, src(c)[:80],
+                      "Model.%s evaluates %s whether or not '%s' is registered already: constructing an element compiles its default equation into "
+                      "model.equations[name] and clears its memo, so fetching an existing element by name resets its equation to the default while the "
+                      "old object is returned" % (meth, src(c)[:50], name_p), key="%s/Model.%s/constructs-for-registered-name" % (rule, meth))
+    return n
+
+
 def check_c01(idx: Index, tier: str, res: Result) -> None:
     res.explanation = ("Decides the *shape of the difference equations the DSL generates*, i.e. that what is evaluated is explicit "
                        "Euler, for every element kind and built-in at once (every model is an instantiation of the same finite set "
@@ -1004,10 +1127,14 @@ def check_c01(idx: Index, tier: str, res: Result) -> None:
     _sweep(idx, res)
     from .timegrid import check_normalisation
     check_normalisation(idx, res)       # a wrong precision/offset evaluates equations at the wrong grid time
+    res.floor("element constructions in Model's factories", element_factories_rule(idx, res, "ONCE"), 5)
     _operand_truth(idx, res)            # a setter that decides on an overloaded comparison silently keeps / drops a value the user assigned
     from .memo import invalidate_on_edit
     # the values reported are those of the model as it is *now*: an edited equation must not be answered from the old memo
     res.floor("definition-changing members of sddsl", invalidate_on_edit(idx, res, "FRESH"), 5)
+    # ... and the invalidation they trigger really empties every memo, whatever was evaluated through whichever entry point before
+    from .memo import clear_rules
+    clear_rules(idx, res)
     _builtins(idx, res, renderers)
     vocab = set(C02_VOCAB)
     inners = inner_texts(renderers, vocab)
